@@ -67,7 +67,7 @@ func (ic *carInbound) Accept(req transport.HTTPRequest) (transport.InboundAccept
 	if accept == "" {
 		accept = "*/*"
 	}
-	if accept != "*/*" && !strings.Contains(accept, contentType) {
+	if !accepts(accept, contentType) {
 		headers := http.Header{}
 		headers.Set("Accept", contentType)
 		return nil, thttp.NewHTTPError(
@@ -78,6 +78,20 @@ func (ic *carInbound) Accept(req transport.HTTPRequest) (transport.InboundAccept
 	}
 
 	return ic.codec, nil
+}
+
+// accepts determines whether any media range of the Accept header value is
+// the passed content type or the "*/*" wildcard. Parameters (e.g. q=) are
+// ignored.
+func accepts(accept string, contentType string) bool {
+	for _, r := range strings.Split(accept, ",") {
+		mediaRange, _, _ := strings.Cut(r, ";")
+		mediaRange = strings.Trim(mediaRange, " \t")
+		if mediaRange == "*/*" || mediaRange == contentType {
+			return true
+		}
+	}
+	return false
 }
 
 var _ transport.InboundCodec = (*carInbound)(nil)
